@@ -43,6 +43,7 @@ class Cfg:
         self.ms = rng.choice([0, 0, 0, 3, 6])
         self.mc = rng.choice([0, 0, 0, 2, 4])
         self.bn = {"1.2.3.4": "spam"} if rng.random() < 0.4 else {}
+        self.wo = rng.choice([{}, {}, {"https://webchat.example.com": True}, {"https://a.example": True, "https://b.example": False}])
         self.rev = rev
 
     def toml(self):
@@ -66,14 +67,19 @@ class Cfg:
             l.append("[Banned]")
             for k, v in self.bn.items():
                 l.append('"%s" = "%s"' % (k, v))
+        if self.wo:
+            l.append("[WhitelistedOrigins]")
+            for k, v in self.wo.items():
+                l.append('"%s" = %s' % (k, "true" if v else "false"))
         return "\n".join(l) + "\n"
 
     def spec(self):
         if not self.valid:
-            return "cfg=0;;;0;0;;;;0;0;0;"
+            return "cfg=0;;;0;0;;;;0;0;0;;"
         pairs = lambda d: ",".join("%s:%s" % (hx(k), hx(v)) for k, v in d)
-        return "cfg=1;%s;%s;%d;%d;%s;%s;%s;%d;%d;%d;%s" % (pairs(self.ops), ",".join(hx(p) for p in self.svc), self.se, self.pc, pairs(self.tb.items()),
-                                                           hx(""), hx(""), 0, self.ms, self.mc, pairs(self.bn.items()))
+        return "cfg=1;%s;%s;%d;%d;%s;%s;%s;%d;%d;%d;%s;%s" % (pairs(self.ops), ",".join(hx(p) for p in self.svc), self.se, self.pc, pairs(self.tb.items()),
+                                                              hx(""), hx(""), 0, self.ms, self.mc, pairs(self.bn.items()),
+                                                              ",".join("%s:%d" % (hx(k), 1 if v else 0) for k, v in self.wo.items()))
 
 
 class Gen:
@@ -96,6 +102,7 @@ class Gen:
         self.svcnicks = []
         self.rev = 0
         self.kinds = {}
+        self.chanop = {}      # channel -> session that (probably) is channel operator there
 
     # -- low level ---------------------------------------------------------------------------
     def tick(self):
@@ -166,7 +173,8 @@ class Gen:
         return self.rng.choice(list(self.sessions)) if self.sessions else 0
 
     def mask(self):
-        m = self.rng.choice(MASKS)
+        # a ban on a session host is stored as two entries (host and remote address) with the same mask
+        m = "*!*@robust/0x%x" if self.rng.random() < 0.3 else self.rng.choice(MASKS)
         if "%x" in m:
             m = m % self.some_sid()
         return m
@@ -189,6 +197,9 @@ class Gen:
         if cmd == "JOIN":
             if "," not in c and c not in self.joined:
                 self.joined.append(c)
+                cur = getattr(self, "cur_sid", None)
+                if cur is not None and self.sessions.get(cur, {}).get("registered") and not server:
+                    self.chanop[c] = cur    # first to join (very likely) holds +o
             return "JOIN %s%s" % (c, r.choice(["", "", " " + r.choice(KEYS)]))
         if cmd in ("PART", "NAMES", "WHO", "LIST", "KNOCK"):
             return "%s %s%s" % (cmd, c, r.choice(["", "", " :" + t]))
@@ -251,7 +262,35 @@ class Gen:
         return r.choice(["", " ", ":", ": ", ":x", ":a!b@c", ":a!b@c ", "\r\n", "x", "ä", "PRIVMSG", " PRIVMSG x :y", "privmsg #a :lower", ":pfx PRIVMSG #a :with prefix",
                          "JOIN  #a", "JOIN #a ", "TOPIC #a  :x", "NICK :", "USER a b c", "\x00", "FOO bar", "PANIC", "MODE", "JOIN :#a", "KICK #a"])
 
+    def priv_action(self):
+        """a privileged command issued by a session that really holds the privilege"""
+        r = self.rng
+        cands = [(c, sid) for c, sid in self.chanop.items() if sid in self.sessions]
+        if not cands:
+            return False
+        c, sid = r.choice(cands)
+        n = self.nick()
+        k = r.random()
+        if k < 0.3:
+            others = [x for x in self.sessions if x != sid] or [sid]
+            m = ("*!*@robust/0x%x" % r.choice(others)) if r.random() < 0.6 else self.mask()
+            text = "MODE %s %s %s" % (c, r.choice(["+b", "+b", "+b", "-b", "+bb"]), m)
+        elif k < 0.5:
+            text = "MODE %s %s" % (c, r.choice(["+i", "-i", "+t", "-t", "+s", "-s", "+n", "-n", "+k " + r.choice(KEYS), "-k " + r.choice(KEYS), "+x", "-x"]))
+        elif k < 0.62:
+            text = "MODE %s %s %s" % (c, r.choice(["+o", "-o", "+o"]), n)
+        elif k < 0.75:
+            text = "KICK %s %s :%s" % (c, n, r.choice(TEXTS))
+        elif k < 0.88:
+            text = "INVITE %s %s" % (n, c)
+        else:
+            text = "TOPIC %s :%s" % (c, r.choice(TEXTS))
+        self.count("priv:" + text.split(" ")[0])
+        self.line(sid, text)
+        return True
+
     def client_line(self, sid):
+        self.cur_sid = sid
         r = self.rng
         s = self.sessions[sid]
         x = r.random()
@@ -347,6 +386,8 @@ class Gen:
                 self.line(s, self.plausible("PRIVMSG"), cmid=self.sessions[s]["cmid"])
             elif x < 0.30 and getattr(self, "links", None):
                 self.client_line(r.choice(self.links))
+            elif x < 0.40 and self.priv_action():
+                pass
             else:
                 self.client_line(r.choice(live))
         self.ops.append("D")
